@@ -53,6 +53,9 @@ def fault_case(draw):
         "fault": fault,
         "fault_op": draw(st.integers(0, n - 1)),
         "fault_k": draw(st.integers(1, 12)),
+        # a transient fault: the injection point raises only on its k-th invocation (Hypothesis then sees an error that does
+        # not reproduce on replay)
+        "fault_once": draw(st.integers(0, 2)) == 0,
         "phases": draw(st.sampled_from([["examples", "coverage", "fuzzing", "stateful"], ["fuzzing"], ["coverage"], ["coverage", "fuzzing"], ["fuzzing", "stateful"], ["examples"], ["examples"], ["examples", "stateful"]])),
         "checks": draw(st.sampled_from(CHECK_SETS)),
         "workers": draw(st.sampled_from([1, 1, 2, 4])),
@@ -61,6 +64,26 @@ def fault_case(draw):
         "unique_inputs": draw(st.booleans()),
         "mode": draw(st.sampled_from(["positive", "all", "negative"])),
         "seed": draw(st.integers(0, 1000)),
+    }
+
+
+@st.composite
+def transient_case(draw):
+    """Focus slice: a well-behaved API and exactly one error that happens once (a hook, a custom check, the connection, a
+    serializer) at some stage of one operation's pipeline - in a unit phase or inside a stateful step."""
+    n = draw(st.integers(1, 2))
+    ops = [{"path": f"/r{i}", "behaviour": "ok", "with_example": draw(st.booleans()), "plain": False} for i in range(n)]
+    links = draw(st.booleans())
+    phases = draw(st.sampled_from([["fuzzing"], ["fuzzing"], ["coverage"], ["stateful"], ["stateful"], ["fuzzing", "stateful"], ["examples", "coverage", "fuzzing", "stateful"]]))
+    if "stateful" in phases:
+        links = True
+    return {
+        "ops": ops, "links": links,
+        "fault": draw(st.sampled_from(["before_generate_query", "map_query", "map_case", "before_call", "after_call", "check-runtime-error", "drop-connection"])),
+        "fault_op": draw(st.integers(0, n - 1)), "fault_k": draw(st.integers(0, 7)), "fault_once": True,
+        "fault_target": "link" if links and "stateful" in phases and draw(st.booleans()) else "op",
+        "phases": phases, "checks": ["not_a_server_error"], "workers": draw(st.sampled_from([1, 1, 2])), "continue_on_failure": draw(st.booleans()),
+        "max_failures": None, "unique_inputs": draw(st.booleans()), "mode": "positive", "seed": draw(st.integers(0, 1000)),
     }
 
 
@@ -119,22 +142,29 @@ def check_faults(ctx: Ctx, inp) -> None:
     from vfw.harness import engine_run, loopback
 
     fired: dict = {"n": 0}
+    calls_drop = {"n": 0}
     fault = inp["fault"]
     target = inp["ops"][inp["fault_op"]]["path"] if fault != "serializer" else "/csv"
+    if inp.get("fault_target") == "link":
+        target = "/c/{id}"  # the operation reached through the link of POST /c
     tlabel = ("POST " if fault == "serializer" else "GET ") + target
     by_path = {op["path"]: op for op in inp["ops"]}
 
     def script(req, ordinal):
+        if req.method not in ("GET", "POST"):
+            return loopback.json_reply(405, {"error": "method not allowed"})  # keeps the coverage phase's method probes quiet
         if req.path == "/c":
             return loopback.json_reply(201, {"id": 7})
+        op = by_path.get(req.path)
+        if fault == "drop-connection" and (req.path == target or (target == "/c/{id}" and req.path.startswith("/c/"))):
+            calls_drop["n"] += 1
+            if not inp.get("fault_once") or calls_drop["n"] == 1 + inp["fault_k"] % 4:
+                fired["n"] += 1
+                return loopback.Reply(close=True)
         if req.path.startswith("/c/"):
             return loopback.json_reply(200, {"id": 7})
-        op = by_path.get(req.path)
         if op is None:
             return loopback.json_reply(200, {"id": 1})
-        if fault == "drop-connection" and req.path == target:
-            fired["n"] += 1
-            return loopback.Reply(close=True)
         b = op["behaviour"]
         if b == "500" or (b == "500-after-2" and ordinal >= 2):
             return loopback.json_reply(500, {"error": "x"})
@@ -152,7 +182,12 @@ def check_faults(ctx: Ctx, inp) -> None:
 
     server = loopback.shared(script)
 
+    calls = {"n": 0}
+
     def boom():
+        calls["n"] += 1
+        if inp.get("fault_once") and calls["n"] != 1 + inp["fault_k"] % 4:
+            return
         fired["n"] += 1
         raise RuntimeError("INJECTED-FAULT")
 
@@ -217,7 +252,8 @@ def check_faults(ctx: Ctx, inp) -> None:
             def handle_event(self, ctx_, event):
                 seen["n"] += 1
                 if seen["n"] == inp["fault_k"]:
-                    boom()
+                    fired["n"] += 1
+                    raise RuntimeError("INJECTED-FAULT")
 
         handler_cls = VfwHandler
         cli_mod.handler()(VfwHandler)
@@ -266,14 +302,14 @@ def check_faults(ctx: Ctx, inp) -> None:
     expected = {}  # path -> list of violated checks (by construction of the script and the traffic)
     for op in inp["ops"]:
         v = violated_checks(op, inp["checks"], per_op_requests[op["path"]])
-        if fault == "drop-connection" and op["path"] == target:
+        if fault == "drop-connection" and op["path"] == target and not inp.get("fault_once"):
             v = []
         if v:
             expected[op["path"]] = v
     fault_fired = fired["n"] > 0 or fault in ("malformed-operation", "binary-example")
     interrupted = "Interrupted" in output or "Test run was interrupted" in output
     nontrivial = bool(expected) or fault_fired
-    ctx.case(nontrivial=inp if nontrivial else None, classes=[f"fault={fault}", f"fired={fault_fired}", f"exit={code}", f"workers={inp['workers']}", f"violations={'yes' if expected else 'no'}", f"phases={'+'.join(inp['phases'])}"], sample={"input": inp, "exit": code, "requests": len(log), "output_tail": output[-300:]})
+    ctx.case(nontrivial=inp if nontrivial else None, classes=[f"fault={fault}", f"fired={fault_fired}", f"transient={bool(inp.get('fault_once')) and fault_fired}", f"exit={code}", f"workers={inp['workers']}", f"violations={'yes' if expected else 'no'}", f"phases={'+'.join(inp['phases'])}"], sample={"input": inp, "exit": code, "requests": len(log), "output_tail": output[-300:]})
     if interrupted:
         ctx.inconclusive_case("run was interrupted")
         return
@@ -311,10 +347,12 @@ def check_faults(ctx: Ctx, inp) -> None:
     elif fault_fired:
         visible = any(m in output for m in ("INJECTED-FAULT", "Internal Error", "CLI Handler Error", "ERRORS", "Schema Error", "Network Error", "Errors:", "errors"))
         if code == 0:
-            sig = f"fault-fired-but-exit-code-0:{stage}"
+            sig = f"fault-fired-but-exit-code-0:{stage}" + (":transient" if inp.get("fault_once") else "")
             ctx.disagree(sig, f"fault {fault} fired {fired['n']}x (target {tlabel}) but the run exited 0: {output[-300:]}", input=inp)
-        elif inp["max_failures"] is not None:
-            pass  # the failure limit may cut the run before the faulty operation is reported
+        elif inp["max_failures"] is not None or inp.get("fault_once"):
+            # the failure limit may cut the run before the faulty operation is reported; an error that does not reproduce on
+            # replay is reported through the phase mark and the exit code only (the statement asks for no more)
+            pass
         elif not visible:
             ctx.disagree(f"fault-fired-but-no-error-reported:{stage}", f"fault {fault} fired but the output shows no error section", input=inp)
         elif stage in ("construction", "generation", "serialization", "transport", "checks") and fault not in ("malformed-operation",) and tlabel not in output:
@@ -401,9 +439,10 @@ def attribution_case():
 
 SUBS = [
     Sub("attribution", collect=True, fn=check_attribution, strategy=attribution_case, quick=(8, 8), thorough=(16, 200), shrink_quick=False, timeout_quick=600, timeout_thorough=3400),
+    Sub("transient", collect=True, fn=check_faults, strategy=transient_case, quick=(16, 5), thorough=(16, 200), shrink_quick=False, timeout_quick=600, timeout_thorough=3400),
     Sub("faults", collect=True, fn=check_faults, strategy=fault_case, quick=(16, 14), thorough=(16, 500), shrink_quick=False, timeout_quick=600, timeout_thorough=3400),
 ]
-FLOOR = {"faults": 150, "attribution": 30}
+FLOOR = {"transient": 40, "faults": 150, "attribution": 30}
 
 MANIFEST = {
     "category": "fault_enumeration",
